@@ -11,21 +11,24 @@ from checks import xmap_common as xc
 
 PROPERTY = "C03"
 LEVEL = "exploration"
-RULE = ("reference 4..25 atoms with generic geometry, target 2..30 atoms, s in {1} u (0,2]; new conformation = "
+RULE = ("reference 4..25 atoms (generic, exactly collinear or mixed construction geometry; one anchor of the new "
+        "conformation exactly collinear in a quarter of the cases), target 2..30 atoms, s in {1} u (0,2]; new conformation = "
         "independent displacement (<=0.3 nm) of every reference atom, re-drawn until every anchor triple stays "
         "generic (sin>=1e-3); one further atom k displaced by <=0.5 nm for the locality clause, for every k in small "
         "molecules or 3 sampled k. Non-trivial = >=2 anchors used and >=1 mapped atom whose 3-atom stencil excludes a "
         "displaced atom. Distinct = sha1 of the case JSON.")
 ASSUMPTIONS = [
-    "new conformations keep every anchor generic (the statement's distance law needs an orthonormal frame, which C17 covers)",
+    "every anchor of the construction and of the new conformation is either generic (sin>=1e-3) or exactly collinear "
+    "with its frame neighbours; the ill-conditioned zone in between is not generated",
     "frame neighbours = the two lowest-numbered bonded atoms, computed by the harness from the generated edge list",
 ]
 
 
 @st.composite
 def case_strategy(draw):
-    base = draw(xc.ref_tgt_case(nref=(4, 25), ntgt=(2, 30), geoms=["generic"], nres_max=2,
-                                placements=("near", "mix", "near")))
+    base = draw(xc.ref_tgt_case(nref=(4, 25), ntgt=(2, 30),
+                                geoms=["generic", "generic", "generic", "mixed", "diagonal", "integer", "axis-z"],
+                                nres_max=2, placements=("near", "mix", "near")))
     rng = np.random.default_rng(draw(gen.SEEDS))
     rpos = np.array(base["ref"]["coords"], float)
     n = len(rpos)
@@ -37,6 +40,28 @@ def case_strategy(draw):
             break
     else:
         raise RuntimeError("no generic conformation")
+    conf = "generic"
+    if draw(st.integers(0, 3)) == 0:
+        # one anchor of the NEW conformation exactly collinear with its frame neighbours (lattice line)
+        triples = gen.anchor_triples(n, edges)
+        for _ in range(50):
+            a, n1, n2 = triples[int(rng.integers(0, len(triples)))]
+            d = gen.line_direction(str(rng.choice(gen.LINE_CLASSES)), rng).astype(float)
+            pa = np.round(new[a] * 8)
+            k1, k2 = 0, 0
+            while k1 == 0 or k2 == 0 or k1 == k2:
+                k1, k2 = (int(v) for v in rng.integers(-3, 4, size=2))
+            cand = new.copy()
+            cand[a] = pa / 8
+            cand[n1] = (pa + k1 * d) / 8
+            cand[n2] = (pa + k2 * d) / 8
+            dm = np.sqrt(((cand[:, None] - cand[None]) ** 2).sum(-1)) + np.eye(n) * 10
+            if dm.min() >= 1e-2 and "grey" not in xc.classify_anchors(cand, edges).values() \
+                    and "near" not in xc.classify_anchors(cand, edges).values():
+                new = cand
+                conf = "collinear-anchor"
+                break
+    base["conf"] = conf
     if n <= 8:
         ks = list(range(n))
     else:
@@ -110,10 +135,11 @@ def check(case):
     return {"nontrivial": nused >= 2 and n_outside > 0,
             "classes": ["anchors-used:%s" % ("1" if nused == 1 else "2+"),
                         "s=1" if s == 1.0 else "s!=1", "graph:" + case["ref"]["graph"],
-                        "how:" + case.get("how", "fresh"), "after-other-call" if prior else "first-call"]}
+                        "how:" + case.get("how", "fresh"), "after-other-call" if prior else "first-call",
+                        "conf:" + case.get("conf", "generic"), "geom:" + case["geom"]]}
 
 
 SUBCHECKS = [
     Sub("deform", check, strategy=lambda tier: case_strategy(),
-        quick=2000, thorough=50000, min_share={"anchors-used:2+": 0.3}),
+        quick=2000, thorough=50000, min_share={"anchors-used:2+": 0.3, "conf:collinear-anchor": 0.08}),
 ]
